@@ -84,7 +84,7 @@ _S = {}
 # =========================================================================== abstract programs
 def _specs():
     if "specs" not in _S:
-        _S["specs"] = {s.name: s for s in GP.build_specs() + GP.build_vendor_specs()}
+        _S["specs"] = {s.name: s for s in GP.build_specs() + GP.build_vendor_specs() + GP.build_custom_specs()}
     return _S["specs"]
 
 
@@ -501,6 +501,25 @@ def _gen_input(rng, cfg, kind):
         if n == 3 and rng.random() < 0.5:
             other = [x for x in range(n) if x not in w][0]
             items.append(_U("HPow", (1.0, 0.0), (other,)))
+    elif kind == "named-pair":
+        # two named two-qubit gates back to back on one pair (any wire order), alone on that pair: exactly the two-operation
+        # components for which gatesets keep special-case shortcuts (e.g. SWAP next to a ZZ power)
+        n = int(rng.integers(2, 4))
+        fams = ["ISwapPow", "SwapPow", "CZPow", "CXPow", "XXPow", "YYPow", "ZZPow"]
+        w = _wires(rng, n, 2)
+        labs = []
+        # (pairs for which some gateset documents a dedicated decomposition are drawn more often: SWAP next to ZZ**t)
+        pair = [["SwapPow", "ZZPow"], ["ZZPow", "SwapPow"]][int(rng.integers(2))] if rng.random() < 0.35 else None
+        for j in range(2):
+            fam = pair[j] if pair else fams[int(rng.integers(len(fams)))]
+            e = float(rng.choice([1.0, -1.0, 0.5, -0.5, 2.0, 0.25, 3.0])) if rng.random() < 0.6 else float(round(rng.uniform(-2, 2), 3))
+            ww = w if rng.random() < 0.5 else (w[1], w[0])
+            items.append(_U(fam, (e, 0.0), ww))
+            labs.append("%s**%g" % (fam, e))
+        label = "named-pair:" + ",".join(labs)
+        if n == 3 and rng.random() < 0.5:
+            other = [x for x in range(n) if x not in w][0]
+            items.append(_U("HPow", (1.0, 0.0), (other,)))
     elif kind == "kak":
         for _ in range(int(rng.integers(1, 4))):
             st, lab = _kak_step(rng, n)
@@ -571,7 +590,7 @@ class _time_limit:
         return False
 
 
-_KINDS = ["haar", "single-2q", "kak", "catalogue", "two-qubit-circuit", "native", "native", "mixed", "mixed", "named-int-power"]
+_KINDS = ["haar", "single-2q", "kak", "catalogue", "two-qubit-circuit", "native", "native", "mixed", "mixed", "named-int-power", "named-pair", "named-pair"]
 
 def _is_native(op, cfg, opinion):
     """opinion 'G': the gateset's own answer; 'T': the harness table (CircuitOperations unrolled where documented)."""
